@@ -64,7 +64,14 @@ def run_impl(case):
     errs = []
     regions = []  # abstract spec: list of (top, left, h, w)
     other = None
+    respell = zlib.crc32(repr(case).encode()) % 8 == 1
     for op in ops:
+        if respell:
+            # the spelling other producers use for xsd:boolean: hMerge="true" / vMerge="true" (the library writes "1")
+            for tc in tbl._tbl.iter("{http://schemas.openxmlformats.org/drawingml/2006/main}tc"):
+                for a in ("hMerge", "vMerge"):
+                    if tc.get(a) in ("1", "0"):
+                        tc.set(a, "true" if tc.get(a) == "1" else "false")
         before = etree.tostring(tbl._tbl)
         if op[0] == "m":
             _, r1, c1, r2, c2 = op
